@@ -12,7 +12,7 @@
    states them; (iii) [C03_euler]: L(s) + |V(s)| = |s| + number of components; (iv) [C03_spanning]: the flag
    is true exactly when all massive edges are present and one component touches every external vertex. *)
 From Coq Require Import ZArith NArith List QArith Qcanon Permutation.
-From MT Require Import Model.Scalar Model.Graph Model.Table Proofs.Instances Proofs.TableProofs Proofs.Components Proofs.Euler Proofs.Spanning.
+From MT Require Import Model.Scalar Model.Graph Model.Table Proofs.Instances Proofs.TableProofs Proofs.TableField Proofs.Components Proofs.Euler Proofs.Spanning.
 Import ListNotations.
 Local Open Scope nat_scope.
 
@@ -88,14 +88,24 @@ Proof.
   exact (fun s => spanning_semantics (g_edges g) (g_ext g) s).
 Qed.
 
+(* along a removal order the flag can only be lost: if the subset without edge e is spanning, so is the subset *)
+Theorem C03_spanning_monotone : forall (s : sid) (e : nat), has_edge s e = true ->
+  is_mass_momentum_spanning nmassive (g_ext g) (sub_edges (g_edges g) (pop_edge s e)) = true ->
+  is_mass_momentum_spanning nmassive (g_ext g) (sub_edges (g_edges g) s) = true.
+Proof.
+  intros s e He. apply (spanning_monotone (g_edges g) (g_ext g) (pop_edge s e) s).
+  intros f Hf. rewrite (has_edge_pop s e f He) in Hf. apply Bool.andb_true_iff in Hf. tauto.
+Qed.
+
 End C03.
 
-Check @C03_globals. Check @C03_entries. Check @C03_components. Check @C03_euler. Check @C03_spanning.
+Check @C03_globals. Check @C03_entries. Check @C03_components. Check @C03_euler. Check @C03_spanning. Check @C03_spanning_monotone.
 Print Assumptions C03_globals.
 Print Assumptions C03_entries.
 Print Assumptions C03_components.
 Print Assumptions C03_euler.
 Print Assumptions C03_spanning.
+Print Assumptions C03_spanning_monotone.
 
 (* non-vacuity: sunrise with one massive edge over Qc, D = 3; subset {0,1} has one loop,
    is not spanning (misses the massive edge 2), omega = 1 + 1 - 3/2 = 1/2 *)
@@ -107,3 +117,15 @@ Example C03_example :
     t_loop e = 1 /\ t_span e = false /\ this (t_dod e) = (1 # 2)%Q /\
     t_span (nth 7 (tb_entries t) (dentry QcS)) = true /\ this (tg_dod (tb_graph t)) = 0%Q.
 Proof. eexists. split; [vm_compute; reflexivity|]. vm_compute. repeat split. Qed.
+
+(* non-vacuity of the graph-side theorems on the same sunrise: the full subset has 2 loops on 2 vertices in
+   1 component (2 + 2 = 3 + 1); the subset {0,1} is not spanning although it touches both external
+   vertices, because the massive edge 2 is missing, and adding it back makes it spanning *)
+Example C03_graph_example :
+  let sub7 := sub_edges (g_edges sunrise) 7%N in
+  let sub3 := sub_edges (g_edges sunrise) 3%N in
+  loop_number sub7 = 2 /\ length (verts sub7) = 2 /\ length (components sub7) = 1 /\
+  is_mass_momentum_spanning 1 (g_ext sunrise) sub3 = false /\
+  is_mass_momentum_spanning 1 (g_ext sunrise) sub7 = true /\
+  has_edge 7%N 2 = true /\ pop_edge 7%N 2 = 3%N.
+Proof. vm_compute. repeat split. Qed.
